@@ -14,7 +14,16 @@ package cluster
 //     random stores and arguments, script text as received at run time
 //     (`lua` op);
 //   * monitors that check the property itself on the real code's answers,
-//     independently of the Lean model.
+//     independently of the Lean model;
+//   * request-level interleavings: `p:<call>:<key>:<id>:<k>` starts a call and
+//     lets the lease store hold the (k+1)-th Redis REQUEST of that call (the
+//     first k are served); other instances' events and clock ticks run in that
+//     window; `g:<id>` releases the held request and collects the call's
+//     result. A call that issues at most k requests simply completes at `p`
+//     (the model: `p` = the plain call, `g` = nothing), so on code where every
+//     call is one EVAL nothing changes; code that splits a call into several
+//     round trips shows up as "paused" lines (correspondence) and is exposed
+//     to the races between its requests (monitors).
 
 import (
 	"context"
@@ -37,6 +46,8 @@ type vfC15Ev struct {
 	delta   int64
 	applied bool
 	how     string // e = error reply, d = dropped connection
+	sub     string // kind p: the call that is started (c r x l)
+	pk      int    // kind p: number of requests served before the next one is held
 }
 
 type vfC15Trace struct {
@@ -93,6 +104,10 @@ func (tr *vfC15Trace) opLine(idx int) string {
 				a = 1
 			}
 			fmt.Fprintf(&sb, "%s:%s:%s:%d:%s", ev.kind, vfutil.HexS(ev.key), vfutil.HexS(tr.ids[ev.inst]), a, ev.how)
+		case "p":
+			fmt.Fprintf(&sb, "p:%s:%s:%s:%d", ev.sub, vfutil.HexS(ev.key), vfutil.HexS(tr.ids[ev.inst]), ev.pk)
+		case "g":
+			fmt.Fprintf(&sb, "g:%s", vfutil.HexS(tr.ids[ev.inst]))
 		default:
 			fmt.Fprintf(&sb, "%s:%s:%s", ev.kind, vfutil.HexS(ev.key), vfutil.HexS(tr.ids[ev.inst]))
 		}
@@ -120,15 +135,35 @@ type vfC15Runner struct {
 	cfg   config.RedisConfig
 	campS string // campaign script text as received by the store
 	resS  string
-	pool  map[string]Cluster // (slot, ttl) -> connected client, reused across traces
+	pool  map[string]vfC15Conn // (slot, ttl) -> connected client, reused across traces
+}
+
+type vfC15Conn struct {
+	cl   Cluster
+	conn int // the double's number of this client's connection
+}
+
+type vfC15Res struct {
+	role ClusterRole
+	err  error
+	addr string
+}
+
+type vfC15Pending struct {
+	ev    vfC15Ev
+	n     int
+	start int64 // store time when the call was started
+	done  chan vfC15Res
 }
 
 type vfC15Inst struct {
-	id   string
-	ttl  int
-	slot int
-	cl   Cluster
-	el   map[string]Election
+	id      string
+	ttl     int
+	slot    int
+	cl      Cluster
+	conn    int
+	el      map[string]Election
+	pending *vfC15Pending
 }
 
 func (rn *vfC15Runner) dial(in *vfC15Inst) {
@@ -137,6 +172,9 @@ func (rn *vfC15Runner) dial(in *vfC15Inst) {
 		rn.t.Fatalf("NewRedisCluster: %v", err)
 	}
 	in.cl = cl
+	rn.st.mu.Lock()
+	in.conn = rn.st.lastPingConn // NewRedisConn's ping has been answered on the new connection
+	rn.st.mu.Unlock()
 	in.el = map[string]Election{}
 }
 
@@ -145,9 +183,9 @@ func (rn *vfC15Runner) dial(in *vfC15Inst) {
 // long run does not exhaust ephemeral ports.
 func (rn *vfC15Runner) acquire(in *vfC15Inst) {
 	k := fmt.Sprintf("%d/%d", in.slot, in.ttl)
-	if cl, ok := rn.pool[k]; ok {
+	if c, ok := rn.pool[k]; ok {
 		delete(rn.pool, k)
-		in.cl = cl
+		in.cl, in.conn = c.cl, c.conn
 		in.el = map[string]Election{}
 		return
 	}
@@ -157,7 +195,7 @@ func (rn *vfC15Runner) acquire(in *vfC15Inst) {
 func (rn *vfC15Runner) release(in *vfC15Inst) {
 	k := fmt.Sprintf("%d/%d", in.slot, in.ttl)
 	if _, ok := rn.pool[k]; !ok && in.ttl <= 6 {
-		rn.pool[k] = in.cl
+		rn.pool[k] = vfC15Conn{in.cl, in.conn}
 		return
 	}
 	in.cl.Close()
@@ -199,6 +237,135 @@ func (rn *vfC15Runner) snapshot() (int64, map[string]vfEntry) {
 	return rn.st.now, m
 }
 
+// call performs one election call on the real code.
+func vfC15Call(kind string, el Election) vfC15Res {
+	ctx := context.Background()
+	switch kind {
+	case "c":
+		role, err := el.Campaign(ctx)
+		return vfC15Res{role: role, err: err}
+	case "r":
+		return vfC15Res{err: el.Renew(ctx)}
+	case "x":
+		return vfC15Res{err: el.Resign(ctx)}
+	default:
+		ri, err := el.Leader(ctx)
+		addr := ""
+		if ri != nil {
+			addr = ri.Address
+		}
+		return vfC15Res{err: err, addr: addr}
+	}
+}
+
+func vfC15Out(kind string, res vfC15Res) string {
+	switch kind {
+	case "c":
+		return res.role.String() + " " + vfC15ErrClass(res.err)
+	case "l":
+		return vfutil.HexS(res.addr) + " " + vfC15ErrClass(res.err)
+	}
+	return vfC15ErrClass(res.err)
+}
+
+// one running trace: the monitor's own bookkeeping of who was told what
+// (independent of Lean)
+type vfC15Run struct {
+	rn     *vfC15Runner
+	replay map[string]interface{}
+	told   map[string]map[string]int64 // key -> id -> deadline
+	ttlOK  bool
+}
+
+func (x *vfC15Run) setTold(key, id string, d int64) {
+	if x.told[key] == nil {
+		x.told[key] = map[string]int64{}
+	}
+	x.told[key][id] = d
+}
+
+func (x *vfC15Run) clearTold(key, id string) {
+	if x.told[key] != nil {
+		delete(x.told[key], id)
+	}
+}
+
+// settle applies the result of a completed call (kind c r x l) of instance
+// `in` to the monitor's bookkeeping and checks the per-call clauses of the
+// property. start = store time when the call was issued; pre = live store
+// just before the call (for a call that was held: just before its release);
+// post = live store after it; split = the call's requests were interleaved
+// with other events.
+func (x *vfC15Run) settle(n int, kind, key string, in *vfC15Inst, start int64, pre, post map[string]vfEntry, res vfC15Res, split bool) {
+	s := x.rn.s
+	cur, hasCur := pre[key]
+	told := false
+	switch kind {
+	case "c":
+		s.Count("campaign_" + res.role.String())
+		if res.err == nil && res.role == RoleLeader {
+			told = true
+		} else if res.err == nil {
+			x.clearTold(key, in.id)
+		}
+	case "r":
+		s.Count("renew_" + vfC15ErrClass(res.err))
+		if res.err == nil {
+			told = true
+		} else if res.err == ErrNotLeader {
+			x.clearTold(key, in.id)
+		}
+		if !split && hasCur && cur.val != in.id && res.err == nil {
+			s.Violate("failed-renew-not-reported", fmt.Sprintf("event %d: renewal of %q could not extend (lease of %q) but Renew returned nil", n, in.id, cur.val), x.replay)
+		}
+	case "x":
+		s.Count("resign_" + vfC15ErrClass(res.err))
+		x.clearTold(key, in.id)
+		if !split && hasCur && cur.val == in.id && x.ttlOK {
+			if _, still := post[key]; still {
+				s.Violate("resign-keeps-own-lease", fmt.Sprintf("event %d: Resign by holder %q left the lease in place", n, in.id), x.replay)
+			}
+		}
+	case "l":
+		s.Count("leader_" + vfC15ErrClass(res.err))
+	}
+	if told {
+		deadline := start + int64(in.ttl)*1000
+		x.setTold(key, in.id, deadline)
+		if !split && hasCur && cur.val != in.id {
+			s.Violate("success-over-foreign-lease", fmt.Sprintf("event %d: %q was told leader while %q holds an unexpired lease", n, in.id, cur.val), x.replay)
+		}
+		// success must leave a full-ttl lease of the caller in the store
+		pe, ok := post[key]
+		bad := !ok || pe.val != in.id || pe.exp < deadline || (!split && pe.exp != deadline)
+		if in.ttl >= 1 && bad {
+			s.Violate("success-without-full-lease", fmt.Sprintf("event %d: %q was told leader but the store holds %+v (want val=%q exp=%d)", n, in.id, pe, in.id, deadline), x.replay)
+		}
+	}
+}
+
+// a request (or whole call) by `id` on `key` never changes an unexpired lease
+// carrying another value, and never touches another key
+func (x *vfC15Run) foreignUntouched(n int, kind, key, id string, pre, post map[string]vfEntry) {
+	for k, e := range pre {
+		if k == key && e.val == id {
+			continue
+		}
+		if pe, ok := post[k]; !ok || pe != e {
+			what := "foreign-lease-changed"
+			if kind == "x" || kind == "lx" {
+				what = "resign-released-foreign-lease"
+			}
+			x.rn.s.Violate(what, fmt.Sprintf("event %d (%s by %q on %q): lease %q=%+v became %+v", n, kind, id, key, k, e, post[k]), x.replay)
+		}
+	}
+	for k := range post {
+		if _, ok := pre[k]; !ok && k != key {
+			x.rn.s.Violate("foreign-lease-changed", fmt.Sprintf("event %d: key %q appeared", n, k), x.replay)
+		}
+	}
+}
+
 // runTrace executes one event list on the real code, records the op and the
 // implementation's lines, and runs the monitors.
 func (rn *vfC15Runner) runTrace(tr *vfC15Trace, src string) {
@@ -206,7 +373,7 @@ func (rn *vfC15Runner) runTrace(tr *vfC15Trace, src string) {
 	idx := rn.nOps
 	rn.nOps++
 	op := tr.opLine(idx)
-	replay := map[string]interface{}{"trace": op}
+	x := &vfC15Run{rn: rn, replay: map[string]interface{}{"trace": op}, told: map[string]map[string]int64{}, ttlOK: true}
 
 	rn.st.mu.Lock()
 	rn.st.now = tr.now0
@@ -215,6 +382,7 @@ func (rn *vfC15Runner) runTrace(tr *vfC15Trace, src string) {
 		rn.st.data[k] = tr.initE[i]
 	}
 	rn.st.fail = vfFailNone
+	rn.st.pauseConn = -1
 	rn.st.mu.Unlock()
 
 	insts := make([]*vfC15Inst, len(tr.ids))
@@ -224,6 +392,11 @@ func (rn *vfC15Runner) runTrace(tr *vfC15Trace, src string) {
 	}
 	defer func() {
 		for _, in := range insts {
+			if in.pending != nil { // a held call the schedule never released
+				close(rn.st.releaseCh)
+				<-in.pending.done
+				in.pending = nil
+			}
 			rn.release(in)
 		}
 	}()
@@ -231,105 +404,74 @@ func (rn *vfC15Runner) runTrace(tr *vfC15Trace, src string) {
 	var keyList []string
 	keyList = append(keyList, tr.initK...)
 	for _, ev := range tr.evs {
-		if ev.kind != "t" {
+		if ev.kind != "t" && ev.kind != "g" {
 			keyList = append(keyList, ev.key)
 		}
 	}
 	keys := vfC15Dedup(keyList)
 	ids := vfC15Dedup(tr.ids)
-	ttlOK := true
 	distinctIDs := len(ids) == len(tr.ids)
 	for _, t := range tr.ttls {
 		if t < 1 {
-			ttlOK = false
-		}
-	}
-
-	// the monitor's own bookkeeping of who was told what (independent of Lean)
-	told := map[string]map[string]int64{} // key -> id -> deadline
-	setTold := func(key, id string, d int64) {
-		if told[key] == nil {
-			told[key] = map[string]int64{}
-		}
-		told[key][id] = d
-	}
-	clearTold := func(key, id string) {
-		if told[key] != nil {
-			delete(told[key], id)
+			x.ttlOK = false
 		}
 	}
 
 	var lines []string
-	ctx := context.Background()
 	for n, ev := range tr.evs {
 		now, pre := rn.snapshot()
-		var out string
+		out := "-"
+		if ev.kind != "t" && insts[ev.inst].pending != nil && ev.kind != "g" {
+			rn.t.Fatalf("trace %q: event %d uses instance %q while its call is held", op, n, insts[ev.inst].id)
+		}
 		switch ev.kind {
 		case "t":
 			rn.st.mu.Lock()
 			rn.st.now += ev.delta
 			rn.st.mu.Unlock()
-			out = "-"
 			s.Count("ev_tick")
 		case "c", "r", "x", "l":
 			in := insts[ev.inst]
-			el := in.election(ev.key)
-			cur, hasCur := pre[ev.key]
-			switch ev.kind {
-			case "c":
-				role, err := el.Campaign(ctx)
-				out = role.String() + " " + vfC15ErrClass(err)
-				s.Count("campaign_" + role.String())
-				if err == nil && role == RoleLeader {
-					setTold(ev.key, in.id, now+int64(in.ttl)*1000)
-					if hasCur && cur.val != in.id {
-						s.Violate("success-over-foreign-lease", fmt.Sprintf("event %d: Campaign by %q returned leader while %q holds an unexpired lease", n, in.id, cur.val), replay)
-					}
-				} else if err == nil {
-					clearTold(ev.key, in.id)
-				}
-			case "r":
-				err := el.Renew(ctx)
-				out = vfC15ErrClass(err)
-				s.Count("renew_" + out)
-				if err == nil {
-					setTold(ev.key, in.id, now+int64(in.ttl)*1000)
-					if hasCur && cur.val != in.id {
-						s.Violate("success-over-foreign-lease", fmt.Sprintf("event %d: Renew by %q succeeded while %q holds an unexpired lease", n, in.id, cur.val), replay)
-					}
-				} else if err == ErrNotLeader {
-					clearTold(ev.key, in.id)
-				}
-				if hasCur && cur.val != in.id && err == nil {
-					s.Violate("failed-renew-not-reported", fmt.Sprintf("event %d: renewal of %q could not extend (lease of %q) but Renew returned nil", n, in.id, cur.val), replay)
-				}
-			case "x":
-				err := el.Resign(ctx)
-				out = vfC15ErrClass(err)
-				s.Count("resign_" + out)
-				clearTold(ev.key, in.id)
-			case "l":
-				ri, err := el.Leader(ctx)
-				addr := ""
-				if ri != nil {
-					addr = ri.Address
-				}
-				out = vfutil.HexS(addr) + " " + vfC15ErrClass(err)
-				s.Count("leader_" + vfC15ErrClass(err))
-			}
-			// success must leave a full-ttl lease of the caller in the store
+			res := vfC15Call(ev.kind, in.election(ev.key))
+			out = vfC15Out(ev.kind, res)
 			_, post := rn.snapshot()
-			if (ev.kind == "c" || ev.kind == "r") && strings.HasSuffix(out, "ok") && (strings.HasPrefix(out, "leader") || out == "ok") {
-				pe, ok := post[ev.key]
-				if in.ttl >= 1 && (!ok || pe.val != in.id || pe.exp != now+int64(in.ttl)*1000) {
-					s.Violate("success-without-full-lease", fmt.Sprintf("event %d: %q was told leader but the store holds %+v (want val=%q exp=%d)", n, in.id, pe, in.id, now+int64(in.ttl)*1000), replay)
-				}
+			x.settle(n, ev.kind, ev.key, in, now, pre, post, res, false)
+			x.foreignUntouched(n, ev.kind, ev.key, in.id, pre, post)
+		case "p":
+			// start the call; the store serves its first pk requests and holds the next
+			in := insts[ev.inst]
+			el := in.election(ev.key)
+			if ev.sub == "x" {
+				x.clearTold(ev.key, in.id) // the instance stopped leading before it calls Resign
 			}
-			rn.foreignUntouched(n, ev, in.id, pre, post, replay)
-			if ev.kind == "x" && hasCur && cur.val == in.id && ttlOK {
-				if _, still := post[ev.key]; still {
-					s.Violate("resign-keeps-own-lease", fmt.Sprintf("event %d: Resign by holder %q left the lease in place", n, in.id), replay)
-				}
+			rn.st.armPause(in.conn, ev.pk)
+			done := make(chan vfC15Res, 1)
+			go func() { done <- vfC15Call(ev.sub, el) }()
+			select {
+			case res := <-done: // the call needed no more than pk requests: an ordinary call
+				rn.st.disarmPause()
+				out = vfC15Out(ev.sub, res)
+				_, post := rn.snapshot()
+				x.settle(n, ev.sub, ev.key, in, now, pre, post, res, false)
+				x.foreignUntouched(n, ev.sub, ev.key, in.id, pre, post)
+				s.Count("pause_not_reached")
+			case <-rn.st.pausedCh:
+				in.pending = &vfC15Pending{ev: ev, n: n, start: now, done: done}
+				out = "paused"
+				_, post := rn.snapshot()
+				x.foreignUntouched(n, ev.sub, ev.key, in.id, pre, post)
+				s.Count("call_held_" + ev.sub)
+			}
+		case "g":
+			in := insts[ev.inst]
+			if pd := in.pending; pd != nil {
+				in.pending = nil
+				close(rn.st.releaseCh)
+				res := <-pd.done
+				out = vfC15Out(pd.ev.sub, res)
+				_, post := rn.snapshot()
+				x.settle(n, pd.ev.sub, pd.ev.key, in, pd.start, pre, post, res, true)
+				x.foreignUntouched(n, pd.ev.sub, pd.ev.key, in.id, pre, post)
 			}
 		case "lc", "lx":
 			in := insts[ev.inst]
@@ -346,21 +488,21 @@ func (rn *vfC15Runner) runTrace(tr *vfC15Trace, src string) {
 			rn.st.mu.Lock()
 			rn.st.fail = mode
 			rn.st.mu.Unlock()
-			var err error
 			if ev.kind == "lc" {
-				var role ClusterRole
-				role, err = el.Campaign(ctx)
+				role, err := el.Campaign(context.Background())
 				if err == nil || role != RoleCandidate {
-					s.Violate("lost-call-not-an-error", fmt.Sprintf("event %d: lost campaign returned role=%v err=%v", n, role, err), replay)
+					s.Violate("lost-call-not-an-error", fmt.Sprintf("event %d: lost campaign returned role=%v err=%v", n, role, err), x.replay)
 				}
 			} else {
-				err = el.Resign(ctx)
+				err := el.Resign(context.Background())
 				if err == nil {
-					s.Violate("lost-call-not-an-error", fmt.Sprintf("event %d: lost resign returned nil", n), replay)
+					s.Violate("lost-call-not-an-error", fmt.Sprintf("event %d: lost resign returned nil", n), x.replay)
 				}
-				clearTold(ev.key, in.id)
+				x.clearTold(ev.key, in.id)
 			}
-			out = "-"
+			rn.st.mu.Lock()
+			rn.st.fail = vfFailNone
+			rn.st.mu.Unlock()
 			s.Count("ev_lost_" + ev.kind + "_" + ev.how)
 			if ev.how == "d" {
 				// the connection is gone: the instance reconnects (process restart)
@@ -368,7 +510,7 @@ func (rn *vfC15Runner) runTrace(tr *vfC15Trace, src string) {
 				rn.dial(in)
 			}
 			_, post := rn.snapshot()
-			rn.foreignUntouched(n, ev, in.id, pre, post, replay)
+			x.foreignUntouched(n, ev.kind, ev.key, in.id, pre, post)
 		}
 
 		// holders by the monitor's own bookkeeping
@@ -379,13 +521,13 @@ func (rn *vfC15Runner) runTrace(tr *vfC15Trace, src string) {
 		for _, k := range keys {
 			cnt := 0
 			for _, id := range ids {
-				if d, ok := told[k][id]; ok && now2 <= d {
+				if d, ok := x.told[k][id]; ok && now2 <= d {
 					hs = append(hs, fmt.Sprintf("%s/%s@%d", vfutil.HexS(k), vfutil.HexS(id), d))
 					cnt++
 				}
 			}
-			if cnt > 1 && ttlOK && distinctIDs {
-				s.Violate("two-holders", fmt.Sprintf("after event %d: %d instances believe to lead key %q with unexpired lease at t=%d: %v", n, cnt, k, now2, hs), replay)
+			if cnt > 1 && x.ttlOK && distinctIDs {
+				s.Violate("two-holders", fmt.Sprintf("after event %d: %d instances believe to lead key %q with unexpired lease at t=%d: %v", n, cnt, k, now2, hs), x.replay)
 			}
 			if cnt == 1 {
 				s.Count("state_one_holder")
@@ -402,28 +544,6 @@ func (rn *vfC15Runner) runTrace(tr *vfC15Trace, src string) {
 	s.Add("events", len(tr.evs))
 	if len(tr.ids) >= 2 && len(tr.evs) >= 4 {
 		s.Distinct(op)
-	}
-}
-
-// a call by `id` never changes an unexpired lease carrying another value,
-// and never touches another key
-func (rn *vfC15Runner) foreignUntouched(n int, ev vfC15Ev, id string, pre, post map[string]vfEntry, replay map[string]interface{}) {
-	for k, e := range pre {
-		if k == ev.key && e.val == id {
-			continue
-		}
-		if pe, ok := post[k]; !ok || pe != e {
-			what := "foreign-lease-changed"
-			if ev.kind == "x" || ev.kind == "lx" {
-				what = "resign-released-foreign-lease"
-			}
-			rn.s.Violate(what, fmt.Sprintf("event %d (%s by %q on %q): lease %q=%+v became %+v", n, ev.kind, id, ev.key, k, e, post[k]), replay)
-		}
-	}
-	for k := range post {
-		if _, ok := pre[k]; !ok && k != ev.key {
-			rn.s.Violate("foreign-lease-changed", fmt.Sprintf("event %d: key %q appeared", n, k), replay)
-		}
 	}
 }
 
@@ -493,11 +613,41 @@ func vfC15Gen(r *vfutil.Rand) *vfC15Trace {
 	}
 	now := tr.now0
 	ne := r.Range(1, 40)
+	busy, window := -1, 0 // instance whose call is held, events left before it is released
 	for i := 0; i < ne; i++ {
+		if busy >= 0 && window == 0 {
+			tr.evs = append(tr.evs, vfC15Ev{kind: "g", inst: busy})
+			busy = -1
+			continue
+		}
 		k := vfutil.Pick(r, keys)
 		in := r.Intn(n)
+		if busy >= 0 {
+			window--
+			if n == 1 {
+				in = -1
+			} else {
+				for in == busy {
+					in = r.Intn(n)
+				}
+			}
+		}
 		ev := vfC15Ev{key: k, inst: in}
-		switch x := r.Intn(100); {
+		x := r.Intn(100)
+		if in < 0 { // only the clock can move while the single instance is held
+			x = 70
+			ev.inst = busy
+			in = busy
+		}
+		if busy < 0 && x < 65 && r.Chance(1, 5) {
+			// a call whose (pk+1)-th request is held while others act
+			ev.kind, ev.pk = "p", r.Range(1, 2)
+			ev.sub = []string{"c", "r", "x", "x", "l"}[r.Intn(5)]
+			busy, window = in, r.Range(1, 4)
+			tr.evs = append(tr.evs, ev)
+			continue
+		}
+		switch {
 		case x < 26:
 			ev.kind = "c"
 			simExp[k] = now + int64(tr.ttls[in])*1000 // approximate (as if it succeeded)
@@ -544,6 +694,9 @@ func vfC15Gen(r *vfutil.Rand) *vfC15Trace {
 			}
 		}
 		tr.evs = append(tr.evs, ev)
+	}
+	if busy >= 0 {
+		tr.evs = append(tr.evs, vfC15Ev{kind: "g", inst: busy})
 	}
 	return tr
 }
@@ -601,6 +754,23 @@ func vfC15ParseTrace(line string) (*vfC15Trace, error) {
 			if _, err := fmt.Sscan(p[1], &ev.delta); err != nil {
 				return nil, err
 			}
+		case p[0] == "g" && len(p) == 2:
+			i, ok := idIdx[string(vfutil.UnHex(p[1]))]
+			if !ok {
+				return nil, fmt.Errorf("unknown instance in %q", tok)
+			}
+			ev.inst = i
+		case p[0] == "p" && len(p) == 5:
+			ev.sub = p[1]
+			ev.key = string(vfutil.UnHex(p[2]))
+			i, ok := idIdx[string(vfutil.UnHex(p[3]))]
+			if !ok || (ev.sub != "c" && ev.sub != "r" && ev.sub != "x" && ev.sub != "l") {
+				return nil, fmt.Errorf("bad held call %q", tok)
+			}
+			ev.inst = i
+			if _, err := fmt.Sscan(p[4], &ev.pk); err != nil || ev.pk < 0 {
+				return nil, fmt.Errorf("bad held call %q", tok)
+			}
 		case (p[0] == "c" || p[0] == "r" || p[0] == "x" || p[0] == "l") && len(p) == 3,
 			(p[0] == "lc" || p[0] == "lx") && len(p) == 5:
 			ev.key = string(vfutil.UnHex(p[1]))
@@ -641,6 +811,11 @@ func (rn *vfC15Runner) luaOp(r *vfutil.Rand) {
 	which, text := "c", rn.campS
 	if r.Chance(2, 5) {
 		which, text = "r", rn.resS
+	}
+	if text == "" { // the call sends no script (any more): nothing to interpret; the `requests` op shows it
+		s.Count("lua_skipped_no_script_" + which)
+		rn.nOps--
+		return
 	}
 	now := int64(r.Intn(100000))
 	vals := []string{"a", "b", "", "false", "1", "10.0.0.1:18001"}
@@ -734,31 +909,55 @@ func TestVerifC15(t *testing.T) {
 		t.Fatal(err)
 	}
 	defer st.Close()
-	rn := &vfC15Runner{t: t, s: s, st: st, pool: map[string]Cluster{},
+	rn := &vfC15Runner{t: t, s: s, st: st, pool: map[string]vfC15Conn{},
 		cfg: config.RedisConfig{Addresses: []string{st.Addr()}, Type: config.RedisTypeStandalone}}
 
-	// capture the two scripts as the real code sends them
+	// capture the two scripts as the real code sends them, and the Redis
+	// requests each kind of call issues
 	{
 		in := &vfC15Inst{id: "probe", ttl: 5}
 		rn.dial(in)
 		el := in.election("probe-key")
-		if _, err := el.Campaign(context.Background()); err != nil {
-			s.Violate("campaign-script-unusable", "Campaign on an empty store failed: "+err.Error(), map[string]interface{}{"trace": "trace 0 0 70726f6265=5 . c:6b:70726f6265"})
+		reqs := func(f func()) string {
+			st.mu.Lock()
+			st.reqLog = nil
+			st.lastScript = ""
+			st.mu.Unlock()
+			f()
+			st.mu.Lock()
+			defer st.mu.Unlock()
+			if len(st.reqLog) == 0 {
+				return "none"
+			}
+			return strings.Join(st.reqLog, "+")
 		}
+		probe := "trace 0 0 70726f6265=5 . c:6b:70726f6265 r:6b:70726f6265 l:6b:70726f6265 x:6b:70726f6265"
+		rc := reqs(func() {
+			if _, err := el.Campaign(context.Background()); err != nil {
+				s.Violate("campaign-script-unusable", "Campaign on an empty store failed: "+err.Error(), map[string]interface{}{"trace": probe})
+			}
+		})
 		rn.campS = st.lastScript
-		if err := el.Resign(context.Background()); err != nil {
-			s.Violate("resign-script-unusable", "Resign by the holder failed: "+err.Error(), map[string]interface{}{"trace": "trace 0 0 70726f6265=5 . c:6b:70726f6265 x:6b:70726f6265"})
-		}
+		rr := reqs(func() { el.Renew(context.Background()) })
+		rl := reqs(func() { el.Leader(context.Background()) })
+		rx := reqs(func() {
+			if err := el.Resign(context.Background()); err != nil {
+				s.Violate("resign-script-unusable", "Resign by the holder failed: "+err.Error(), map[string]interface{}{"trace": probe})
+			}
+		})
 		rn.resS = st.lastScript
 		in.cl.Close()
-		if rn.campS == rn.resS {
-			s.Count("scripts_identical")
+		// the model is of calls that are ONE atomic request each
+		s.Op(fmt.Sprintf("requests %d", rn.nOps), fmt.Sprintf("#%d campaign=%s renew=%s leader=%s resign=%s", rn.nOps, rc, rr, rl, rx))
+		rn.nOps++
+		for _, q := range []string{rc, rr, rl, rx} {
+			s.Count("requests_per_call_" + q)
 		}
 	}
 
 	defer func() {
-		for _, cl := range rn.pool {
-			cl.Close()
+		for _, c := range rn.pool {
+			c.cl.Close()
 		}
 	}()
 
@@ -813,6 +1012,60 @@ func TestVerifC15(t *testing.T) {
 			}
 		}
 		rec(nil)
+	}
+
+	// request-level windows: a's call is held after its k-th request while
+	// its lease runs out / b acts, then released, then somebody campaigns.
+	// ALL windows of length <= W over {tick ttl/2, tick ttl+1, campaign b,
+	// renew b, resign b} for every kind of call, k, and a few prefixes.
+	{
+		k := "k"
+		pres := [][]vfC15Ev{
+			{},
+			{{kind: "c", key: k, inst: 0}},
+			{{kind: "c", key: k, inst: 0}, {kind: "t", delta: 1500}},
+			{{kind: "c", key: k, inst: 0}, {kind: "t", delta: 3000}},
+			{{kind: "c", key: k, inst: 1}, {kind: "t", delta: 2999}},
+		}
+		wa := []vfC15Ev{{kind: "t", delta: 1500}, {kind: "t", delta: 3001}, {kind: "c", key: k, inst: 1},
+			{kind: "r", key: k, inst: 1}, {kind: "x", key: k, inst: 1}}
+		posts := [][]vfC15Ev{
+			{{kind: "c", key: k, inst: 2}, {kind: "r", key: k, inst: 1}},
+			{{kind: "c", key: k, inst: 0}},
+			{{kind: "r", key: k, inst: 1}, {kind: "t", delta: 3001}, {kind: "c", key: k, inst: 2}},
+		}
+		maxW := vfutil.Scale(2, 3)
+		var windows [][]vfC15Ev
+		var rec func(w []vfC15Ev)
+		rec = func(w []vfC15Ev) {
+			if len(w) > 0 {
+				windows = append(windows, append([]vfC15Ev{}, w...))
+			}
+			if len(w) == maxW {
+				return
+			}
+			for _, e := range wa {
+				rec(append(w, e))
+			}
+		}
+		rec(nil)
+		for _, pre := range pres {
+			for _, sub := range []string{"c", "r", "x", "l"} {
+				for pk := 1; pk <= 2; pk++ {
+					for _, w := range windows {
+						for _, post := range posts {
+							var evs []vfC15Ev
+							evs = append(evs, pre...)
+							evs = append(evs, vfC15Ev{kind: "p", sub: sub, key: k, inst: 0, pk: pk})
+							evs = append(evs, w...)
+							evs = append(evs, vfC15Ev{kind: "g", inst: 0})
+							evs = append(evs, post...)
+							rn.runTrace(&vfC15Trace{now0: 7, ids: []string{"a", "b", "c"}, ttls: []int{3, 3, 3}, evs: evs}, "windows")
+						}
+					}
+				}
+			}
+		}
 	}
 
 	// generated event lists
